@@ -10,6 +10,7 @@ INVARIANT Consistent
 INVARIANT GramInvariant
 INVARIANT LawC10
 INVARIANT WidenLaw
+INVARIANT NearMaxLaw
 INVARIANT ClassInvariant
 INVARIANT Export
 CHECK_DEADLOCK FALSE
